@@ -273,3 +273,40 @@ Qed.
 
 Lemma pitems_pasd s : pitems s = pasd s.
 Proof. destruct s; reflexivity. Qed.
+
+(* ---------------------------------------------------------------- the domain has no duplicates *)
+Lemma nodup_keys_NoDup {A} (l : list (ident * A)) : nodup_keys l = true -> NoDup (map fst l).
+Proof.
+  induction l as [|[x a] l IH]; intros H; [constructor|].
+  apply nodup_keys_cons in H as [Hx Hl]. cbn. constructor; auto.
+  intros Hin. apply mem_spec in Hin. rewrite <- lookup_mem, Hx in Hin. discriminate.
+Qed.
+
+Lemma NoDup_app_disjoint (a b : list ident) :
+  NoDup a -> NoDup b -> (forall y, In y b -> ~ In y a) -> NoDup (a ++ b).
+Proof.
+  induction a as [|x a IH]; intros Ha Hb Hd; [exact Hb|].
+  inversion Ha; subst. cbn. constructor.
+  - intros Hin. apply in_app_or in Hin as [Hin|Hin]; [auto|]. apply (Hd x Hin). now left.
+  - apply IH; auto. intros y Hy Hya. apply (Hd y Hy). now right.
+Qed.
+
+Lemma NoDup_union a b : NoDup a -> NoDup b -> NoDup (union a b).
+Proof.
+  intros Ha Hb. unfold union. apply NoDup_app_disjoint; auto.
+  - now apply NoDup_filter.
+  - intros y Hy Hya. apply filter_In in Hy as [_ Hy]. apply mem_spec in Hya. rewrite Hya in Hy. discriminate.
+Qed.
+
+Lemma domain_NoDup : forall s, wf_scope s = true -> NoDup (domain s).
+Proof.
+  induction s using scope_ind'; intros Hwf; cbn [domain].
+  - now apply nodup_keys_NoDup.
+  - cbn [wf_scope] in Hwf. apply andb_prop in Hwf as [Hwo Hwm].
+    apply NoDup_union; auto. now apply nodup_keys_NoDup.
+  - cbn [wf_scope] in Hwf. destruct (mem n (domain s)) eqn:E; auto.
+    apply NoDup_app_disjoint; auto.
+    + constructor; [intros []|constructor].
+    + intros y [<-|[]] Hin. apply mem_spec in Hin. rewrite Hin in E. discriminate.
+  - cbn [wf_scope] in Hwf. apply andb_prop in Hwf as [Hnd _]. now apply nodup_keys_NoDup.
+Qed.
